@@ -1,4 +1,5 @@
 import ArgoVerif.Proofs.Eventual2
+import ArgoVerif.Gen.Consts
 import ArgoVerif.Proofs.Future2
 import ArgoVerif.Proofs.Future3b
 import ArgoVerif.Proofs.Future4
@@ -643,5 +644,12 @@ example :
        .call 2 .set 5, .acq 2 false, .ldCnt 2 0, .rel 2 0 0 true, .ret 2 .set .errFuture false,
        .call 1 .test 0, .tload 1 0, .ret 1 .test .ok true]).map (fun s => (s.cbRuns 0, s.counter)) = some (0, 0) := by
   decide
+
+
+/-! ## widths of the counters modelled as unbounded numbers (generated from the headers on every run) -/
+/-- `counter` of ABT_future is 8 bytes wide in this tree: the unbounded model agrees with the C field below 2^63 -/
+example : ArgoVerif.Gen.Consts.bytesFutureCounter = 8 := by decide
+/-- `num_compartments` is 8 bytes wide in this tree: the unbounded model agrees with the C field below 2^63 -/
+example : ArgoVerif.Gen.Consts.bytesFutureNumCompartments = 8 := by decide
 
 end ArgoVerif.Props.C09
